@@ -19,7 +19,7 @@ use crate::util::*;
 pub const PROP: Prop = Prop {
     id: "C01",
     level: "exploration",
-    rule: "values from the recursive generator G_value(default dialect) plus enumerated sweeps (scalars as chars and 1-char strings, byte singletons, integer boundary table, float table); each value is printed through 5 entry points, parsed through 4, and read by the independent R7RS reader; non-trivial = contains a list/vector, or an atom whose text is not its payload verbatim (escape, #\\x form, exponent form, negative number, keyword, byte vector); distinct by digest of the model value",
+    rule: "values from the recursive generator G_value(default dialect), towers of up to 60 (100) nesting levels, wide values (lists and vectors of 100-400 (1500) elements repeating a few small units: dotted pairs, improper lists, vectors, nested lists, atoms) plus enumerated sweeps (scalars as chars and 1-char strings, byte singletons, integer boundary table, float table); each value is printed through 5 entry points, parsed through 4, and read by the independent R7RS reader; non-trivial = contains a list/vector, or an atom whose text is not its payload verbatim (escape, #\\x form, exponent form, negative number, keyword, byte vector); distinct by digest of the model value",
     assumptions: &[
         "plain identifier = R7RS <identifier> productions without |..| and without the numeric look-alikes +i -i +inf.0 -inf.0 +nan.0 -nan.0",
         "float acceptance per DESIGN.md A.4: bit-exact in the noff build; in the ff build bit-exact when the shortest form has <=15 significant digits, fits 2^53 and |exponent|<=22 under the written, effective and scientific reading; otherwise within 2^-50 relative (1.25 slack for the half-ulp between the double and its shortest decimal)",
@@ -300,6 +300,8 @@ fn run(ctx: &mut Ctx) {
         g_deep(cfg(tier), tier.pick(60, 100)),
         check_value,
     );
+    // wide values: hundreds of repetitions of each construct in one text
+    ctx.run_prop("wide", tier.pick(400, 10_000), g_wide(cfg(tier), tier.pick(400, 1500)), check_value);
     // floats on their own: 2*10^6 draws in the thorough tier
     ctx.run_prop(
         "floats",
